@@ -32,7 +32,8 @@ EXPLANATION = ('Lookup keys of the zip, VPK and in-memory backends proved equal 
                '(all entries for the empty folder), once, as that entry; likewise the in-memory walk_folder, where folders '
                'spelled with separators only or as "." mean everything. The de-duplicating loop of FileSystemChain.walk_folder is proved per file: listed exactly when no '
                'spelling of its folded name was listed before, and the set of listed names grows by exactly that name. '
-               'Directory walks, walk_folder_repeat (relpath), byte equality between backends, de-duplicated chain walks '
+               'walk_folder_repeat is proved to hand each member file on, once, under replace(relpath(name, prefix)) with '
+               'relpath uninterpreted. Directory walks, the meaning of relpath/join, byte equality between backends, de-duplicated chain walks '
                'and subfolder-relative naming are decided by the bounded differential stand-in over generated file sets.')
 TRUSTED = ['str.casefold as an uninterpreted idempotent function',
            'library summary: str.strip(chars) / str.rstrip(c) = the unique middle / left part (regular-expression axioms)', 'zipfile / VPK container I/O (C13)',
@@ -41,7 +42,8 @@ TRUSTED = ['str.casefold as an uninterpreted idempotent function',
            'VirtualFileSystem.__init__: the comprehension is checked by shape (key = _clean_path(stored name), value = '
            '(stored name, data), no filter), not executed symbolically; later keys overwriting earlier equal ones is '
            'Python dict semantics']
-UNVERIFIED = ['walk_folder of the directory backend, FileSystemChain.walk_folder_repeat with os.path.relpath (bounded only)',
+UNVERIFIED = ['walk_folder of the directory backend; that os.path.relpath(name, prefix) strips the prefix and os.path.join(prefix, folder) '
+              'prepends it (bounded only)',
               'that dict.items() visits every entry once (Python semantics; the walk lemmas are per entry)', 'host file-system case sensitivity for RawFileSystem']
 
 from pyvc.builtins_model import fold_fn, replace_all   # noqa: E402
@@ -535,6 +537,51 @@ def the_names_listed_so_far_grow_by_exactly_this_one(done, DONE0, PATH):
     return now_listed_are(done, DONE0, PATH)
 
 
+# ---- chain walk with repeats: a file found in a member is handed on under its name relative to the member's prefix
+RELPATH = UninterpFn('relpath', z3.StringSort(), z3.StringSort(), z3.StringSort())
+chain_repeat = REG.add(_Lemma('FileSystemChain.walk_folder_repeat.one_file', PROP,
+                              [{'body': f'{M}:FileSystemChain.walk_folder_repeat', 'loop': 1,
+                                'closure': {'__yielded__': 'YIELDED'}}],
+                              inline=('File.__init__',)))
+
+
+@chain_repeat.setup
+def _(h):
+    def path_model(I_, fname, *a):
+        if fname == 'relpath' and len(a) == 2:
+            return RELPATH.decl(to_z3(a[0]), to_z3(a[1]))
+        from pyvc.symexec import Unsupported
+        raise Unsupported(fname)
+    h.I.path_model = path_model
+    member = Obj('VirtualFileSystem', dict(path='<member>'), module=M)
+    found = Obj('File', dict(path=h.str('member_path'), sys=member, _data=None), module=M)
+    chain = Obj('FileSystemChain', dict(systems=PList([]), path=''), module=M)
+    prefix = h.str('prefix')
+    # every local of the enclosing function is supplied, so a body that (wrongly) uses another one is still decided
+    return {'locals': {'self': chain, 'file': found, 'prefix': prefix, 'sys': member, 'YIELDED': [],
+                       'folder': h.str('folder0'), 'full_folder': h.str('full_folder')},
+            'ghost': dict(FOUND=found, PREFIX=prefix, CHAIN=chain, MEMBER_PATH=h.symbols['member_path'])}
+
+
+@native
+def relative_name(I, path, prefix):
+    return replace_all(RELPATH.decl(to_z3(path), to_z3(prefix)), '\\', '/')
+
+
+@native
+def yields_one_chain_file(I, YIELDED, CHAIN, FOUND, name):
+    if len(YIELDED) != 1:
+        return False
+    f = YIELDED[0]
+    return z3.And(z3.BoolVal(f.fields.get('sys') is CHAIN and f.fields.get('_data') is FOUND),
+                  to_z3(f.fields.get('path')) == to_z3(name))
+
+
+@chain_repeat.ensures
+def the_member_file_is_listed_once_under_its_name_relative_to_the_prefix(YIELDED, CHAIN, FOUND, MEMBER_PATH, PREFIX):
+    return yields_one_chain_file(YIELDED, CHAIN, FOUND, relative_name(MEMBER_PATH, PREFIX))
+
+
 # ---- every use of the in-memory table goes through the one key function (constructor, lookups, opens)
 def _shape(name, good, bad=False, line=0, note=''):
     r = smt.shape(name, good, bad, line, note)
@@ -600,7 +647,7 @@ def static_virtual_table(repo):
 
 
 STATIC = [static_virtual_table]
-PROOFS = [zip_exists, zip_get, vpk_exists, vpk_get, virt_exists, virt_get, zip_walk, vpk_walk, virt_walk, chain_walk, chain_get, chain_add]
+PROOFS = [zip_exists, zip_get, vpk_exists, vpk_get, virt_exists, virt_get, zip_walk, vpk_walk, virt_walk, chain_walk, chain_repeat, chain_get, chain_add]
 
 
 # ------------------------------------------------------------------------------------------------ bounded differential
@@ -988,6 +1035,14 @@ MUTATIONS = [
          old="            if folded in done:\n                continue\n            done.add(folded)",
          new="            if folded in done:\n                continue\n            if '/' in folded:\n                done.add(folded)",
          expect='FileSystemChain.walk_folder.one_file'),
+    dict(name='chain_repeat_keeps_the_member_name', file='filesys.py',
+         old="                    os.path.relpath(file.path, prefix).replace('\\\\', '/'),\n                    file,",
+         new="                    file.path.replace('\\\\', '/'),\n                    file,",
+         expect='FileSystemChain.walk_folder_repeat.one_file'),
+    dict(name='chain_repeat_relative_to_the_folder', file='filesys.py',
+         old="                    os.path.relpath(file.path, prefix).replace('\\\\', '/'),\n                    file,",
+         new="                    os.path.relpath(file.path, full_folder).replace('\\\\', '/'),\n                    file,",
+         expect='FileSystemChain.walk_folder_repeat.one_file'),
 ]
 HARMLESS = [
     dict(name='chain_dedup_else_branch', file='filesys.py',
